@@ -471,6 +471,7 @@ func c10Variants(thorough bool) []variant {
 		return []variant{
 			{"2p-noapp-idx0", 2, 0, "noapp", false, 1, false},
 			{"2p-noapp-idx0-sub", 2, 0, "noapp", true, 1, false},
+			{"2p-noapp-idx1", 2, 1, "noapp", false, 1, false},
 		}
 	}
 	// LevelDB costs ~30 ms per crash point (two opens of a database on disk): it gets the
@@ -633,7 +634,9 @@ func c10Search(t *testing.T, res *report.Result, v variant, deadline time.Time) 
 	if int64(maxDepth) > res.Counters["max_depth"] {
 		res.Counters["max_depth"] = int64(maxDepth)
 	}
-	res.Count("variants", 1)
+	if shard == 0 {
+		res.Count("variants", 1)
+	}
 	res.Note("C10 variant %s: %d ops in alphabet, version cap %d, states=%d, transitions=%d, depth=%d, backends=%v", v.Name, len(all), v.VerCap, nStates, nTrans, maxDepth, backends)
 	return true
 }
@@ -652,7 +655,9 @@ func c10Run(t *testing.T, res *report.Result) {
 		res.Extra["exhaustive"] = true
 	}
 	res.Extra["bound"] = "fixpoint over canonical states (machine state + canonical store digest) below the version cap of each variant (see notes); every transition x every write boundary"
-	res.Note("LevelDB (thorough): every boundary of every transition that writes; a refused operation issues no write boundary (checked on memorydb), so recovery has nothing to act on")
+	if res.Thorough() {
+		res.Note("LevelDB: every boundary of every transition that writes; a refused operation issues no write boundary (checked on memorydb), so recovery has nothing to act on")
+	}
 }
 
 func c10ReplayRun(t *testing.T, res *report.Result, rp c10Replay) {
